@@ -10,6 +10,7 @@ import SqiProofs.QuatCanon
 import SqiProofs.QuatEqual
 import SqiProofs.HnfEchelon
 import SqiProofs.QuatGroupIndex
+import SqiProofs.QuatO0
 import SqiGen.QuatAlg
 /- C14 — "Quaternion algebra and lattice arithmetic is exact and canonical".
    Property theorems about the hand model `SqiModel.Quat` (tie H: the model's executable definitions are run
@@ -61,6 +62,13 @@ theorem quat_alg_equal_denom_exact (p : ℤ) (a b : Elem) (ha : a.denom ≠ 0) (
 
 theorem quat_alg_normalize_exact (p : ℤ) (x : Elem) (hx : x.denom ≠ 0) :
     val p (algNormalize x) = val p x ∧ 0 < (algNormalize x).denom := algNormalize_val p x hx
+
+/-- `from_1ijk_to_O0basis`: for an element of O₀ (the four divisibilities are exactly "x ∈ O₀"; the C code asserts them in
+    debug builds only) the returned vector is the coordinate vector of x in the basis ⟨1, i, (i+j)/2, (1+ij)/2⟩ of O₀ -/
+theorem o0basis_exact (el : Elem)
+    (h0 : el.denom ∣ el.coord.x0 - el.coord.x3) (h1 : el.denom ∣ el.coord.x1 - el.coord.x2)
+    (h2 : el.denom ∣ el.coord.x2 + el.coord.x2) (h3 : el.denom ∣ el.coord.x3 + el.coord.x3) :
+    CoordsOf O0lat el (from1ijkToO0 el) := from1ijkToO0_spec el h0 h1 h2 h3
 
 /-! ### tie T: the coordinate formula re-extracted from algebra.c on every run -/
 
